@@ -155,6 +155,18 @@ def jPVal : PVal → Json
 def jParams (d : Option (List (String × PVal))) : Json :=
   jOpt (jList fun (kv : String × PVal) => Json.arr #[Json.str kv.1, jPVal kv.2]) d
 
+/-- `save_json` then `load_json` on one top-level dictionary given as `[[key, value], ...]` -/
+def jsonRoundTrip (dict : Json) : R Json := do
+  let entries ← asArr dict
+  let d ← entries.mapM fun e => do
+    let p ← asArr e
+    match p with
+    | [k, v] => do pure (← asKey k, ← asPV v)
+    | _ => .error "entry"
+  let rt := roundTrip d
+  pure (Json.mkObj [("model", jList (fun (kv : Key × PV) => Json.arr #[jKey kv.1, jPV kv.2]) rt),
+                    ("spec", jList (fun (kv : Key × PV) => Json.arr #[jKey kv.1, jPV (canon kv.2)]) d)])
+
 def runC18 (op : String) (j : Json) : R Json := do
   match op with
   | "params" =>
@@ -228,16 +240,12 @@ def runC18 (op : String) (j : Json) : R Json := do
                       ("meta", jMeta (loadMetadata text)),
                       ("meta_expected", jMeta (some (if data = [] then [] else
                           [(field, (sortById data).map fun p => (Num.int p.1, obsS p.2))])))])
-  | "json" =>
-    let entries ← fld j "dict" >>= asArr
-    let d ← entries.mapM fun e => do
-      let p ← asArr e
-      match p with
-      | [k, v] => do pure (← asKey k, ← asPV v)
-      | _ => .error "entry"
-    let rt := roundTrip d
-    pure (Json.mkObj [("model", jList (fun (kv : Key × PV) => Json.arr #[jKey kv.1, jPV kv.2]) rt),
-                      ("spec", jList (fun (kv : Key × PV) => Json.arr #[jKey kv.1, jPV (canon kv.2)]) d)])
+  | "json" => do jsonRoundTrip (← fld j "dict")
+  | "json_many" =>
+    -- several dictionaries saved and loaded one after the other by ONE process of the real code (a child process
+    -- running under another locale): one answer per dictionary
+    let ds ← fld j "dicts" >>= asArr
+    pure (Json.mkObj [("results", Json.arr (← ds.mapM jsonRoundTrip).toArray)])
   | _ => .error s!"C18: unknown op {op}"
 
 end PhyVerif.Driver
